@@ -369,3 +369,79 @@ func projectSign(m *cose.SignMessage) J {
 	}
 	return j
 }
+
+// ---- projections without raw bytes and without JSON null (for equivalence by image, C08)
+
+func bucketNoNull(m map[any]any) any {
+	if m == nil {
+		return []any{}
+	}
+	ps := projectPairsNoRaw(m)
+	if ps == nil {
+		return []any{}
+	}
+	return ps
+}
+
+func projectPairsNoRaw(m map[any]any) []any {
+	ps := projectPairs(m)
+	for _, p := range ps {
+		kv := p.([]any)
+		kv[1] = stripRaw(kv[1])
+	}
+	if ps == nil {
+		return []any{}
+	}
+	return ps
+}
+
+// stripRaw removes rawP/rawU and nulls from projected values, recursively
+func stripRaw(x any) any {
+	switch v := x.(type) {
+	case J:
+		out := J{}
+		for k, e := range v {
+			if k == "rawP" || k == "rawU" {
+				continue
+			}
+			if e == nil {
+				out[k] = []any{}
+			} else {
+				out[k] = stripRaw(e)
+			}
+		}
+		return out
+	case []any:
+		out := make([]any, len(v))
+		for i, e := range v {
+			out[i] = stripRaw(e)
+		}
+		return out
+	case []int:
+		return v
+	}
+	return x
+}
+
+func payloadJ(b []byte) any {
+	if b == nil {
+		return []int{-1}
+	}
+	return ints(b)
+}
+
+func noRawSig(s *cose.Signature) J {
+	return J{"P": bucketNoNull(s.Headers.Protected), "U": bucketNoNull(s.Headers.Unprotected), "sig": ints(s.Signature)}
+}
+
+func noRawSign1(m *cose.Sign1Message) J {
+	return J{"P": bucketNoNull(m.Headers.Protected), "U": bucketNoNull(m.Headers.Unprotected), "payload": payloadJ(m.Payload), "sig": ints(m.Signature)}
+}
+
+func noRawSign(m *cose.SignMessage) J {
+	xs := make([]any, len(m.Signatures))
+	for i, s := range m.Signatures {
+		xs[i] = noRawSig(s)
+	}
+	return J{"P": bucketNoNull(m.Headers.Protected), "U": bucketNoNull(m.Headers.Unprotected), "payload": payloadJ(m.Payload), "sigs": xs}
+}
